@@ -6,13 +6,14 @@ from .common import *
 from .detectors import SPECS, gen_case, epoch_start
 
 ID = "C01"
-PROPS = ["Prop_C01"]
+# the lifecycle theorems of the data-drift detectors and MD3 live in their own property files and are re-checked here
+PROPS = ["Prop_C01", "Prop_C09", "Prop_C07", "Prop_C11", "Prop_C10", "Prop_C19"]
 IMPORTS = ("From MV Require Import Base Num NumFloat Lifecycle Pairwise Ddm ChangeDet Adwin Lfr Corr Corr_C03 Corr_C06.\n"
            "From Coq Require Import PrimFloat.")
 CORR_NAME = "Corr_C01: the generic machine instantiated with the DDM/EDDM/STEPD/PH/CUSUM/LFR kernels and the ADWIN model = the implementation's lifecycle observables"
 TRUSTED = ["Coq 8.16.1 kernel + vm_compute + primitive floats",
            "hand-written models (Lifecycle.v and the kernels) tied to the code by bit-level differential execution for DDM, EDDM, STEPD, PageHinkley, CUSUM, LinearFourRates, ADWIN, ADWINAccuracy",
-           "for KdqTreeStreaming, KdqTreeBatch, HDDDM, CDBD, NNDVI, PCACD and MD3 the contract is checked on the implementation trace by the direct oracle (table in DESIGN.md C01); their lifecycle theorems live with their own properties where a model exists",
+           "KdqTreeStreaming / KdqTreeBatch (Prop_C09: C09_lifecycle_*), HDDDM / CDBD (Prop_C07: C07_lifecycle_*), PCACD (Prop_C11: C11_lifecycle_*, C11_silent_*), NNDVI (Prop_C10: C10_nndvi_history) and MD3 (Prop_C19: C19_counters, C19_protocol_invariant) have their lifecycle theorems in those files (re-checked by this check; their models are tied to the code by the correspondence of C09/C07/C11/C10/C19); in this check their contract is additionally verified on implementation traces by the direct oracle (table in DESIGN.md C01)",
            "harness/c01.py, harness/detectors.py"]
 RULE = ("per detector: random parameter draws with emphasis on tiny warm-up values and histories built to drift several times back to back; "
         "observables after every update: drift_state, both counters, retraining_recs. Non-trivial: at least one drift followed by >= 1 update. "
